@@ -165,7 +165,7 @@ fn rand_tz_string(rng: &mut Rng) -> String {
 
 pub fn run(ctx: &Ctx) -> Report {
     let mut rep = Report::new("C10");
-    rep.rule = "cases = events (file, instant) -> (utoff, isdst, abbreviation, civil fields) and (file, local time) -> found instants recorded from tz-rs and replayed offline against CPython zoneinfo (posix tree) and glibc localtime (posix and right trees) reading the same vendored tzdata 2025b files: every transition -1/0/+1, 300 random instants 1900-2500, far-future instants governed by the footer, local times within 3 h of every transition since 1970 (15-minute steps and the exact boundaries); \
+    rep.rule = "cases = events (file, instant) -> (utoff, isdst, abbreviation, civil fields) and (file, local time) -> found instants recorded from tz-rs and replayed offline against CPython zoneinfo (posix tree) and glibc localtime (posix and right trees) reading the same vendored tzdata 2025b files: every transition -1/0/+1, 300 (thorough: 3000) random instants 1900-2500, far-future instants governed by the footer, local times within 3 h of every transition since 1970 (15-minute steps and the exact boundaries); the footer rule's transitions in 2 (quick) / 40 (thorough) random years of 2038-2400 per file, located by bisection, with the instants -1/0/+1 and the local times around them; \
                 plus TZ descriptions (IANA footers and random well-formed ones on the sub-language where glibc is authoritative) x 30 instants against glibc's TZ-environment parser. distinct_nontrivial = distinct events recorded."
         .into();
     let dir = match ctx.opts.get("events") {
@@ -251,11 +251,11 @@ pub fn run(ctx: &Ctx) -> Report {
             }
         }
         // random 1900-2500 and far future
-        let nrand = ctx.inner(300);
+        let nrand = ctx.inner(if ctx.quick() { 300 } else { 3000 });
         for _ in 0..nrand {
             emit_fwd(&mut out, l, hash, path, &tz, &leaps, rng.range(-2_208_988_800, 16_725_225_600), "random_1900_2500");
         }
-        for _ in 0..ctx.inner(60) {
+        for _ in 0..ctx.inner(if ctx.quick() { 60 } else { 600 }) {
             emit_fwd(&mut out, l, hash, path, &tz, &leaps, rng.range(4_102_444_800, 16_725_225_600), "far_future");
         }
         // mktime: local times within 3 h of every transition since 1970
@@ -287,6 +287,57 @@ pub fn run(ctx: &Ctx) -> Report {
             for c in locals {
                 emit_find(&mut out, l, hash, path, &tz, &leaps, &offsets, c);
                 nfind += 1;
+            }
+        }
+        // the future governed by the footer rule: its transitions in a few years after the table, located by
+        // bisection over tz-rs' own forward lookups, then searched around like the table transitions
+        if zs.rule.is_some() {
+            let off_at = |u: i64| tz.find_local_time_type(u).map(|t| t.ut_offset()).ok();
+            for _ in 0..(if ctx.quick() { 2 } else { 40 }) {
+                let y = rng.range(2038, 2400);
+                let start = cal::unix_from_civil(y, 1, 1, 12, 0, 0);
+                let mut prev = off_at(start);
+                for day in 1..=366i64 {
+                    let u = start + day * 86400;
+                    let cur = off_at(u);
+                    if cur != prev {
+                        let (mut lo, mut hi) = (u - 86400, u); // off(lo) == prev, off(hi) == cur
+                        while hi - lo > 1 {
+                            let mid = lo + (hi - lo) / 2;
+                            if off_at(mid) == prev {
+                                lo = mid;
+                            } else {
+                                hi = mid;
+                            }
+                        }
+                        let x = hi;
+                        l.class("rule_governed_transition_located");
+                        for d in [-1i64, 0, 1] {
+                            emit_fwd(&mut out, l, hash, path, &tz, &leaps, x + d, "rule_transition");
+                        }
+                        let mut locals: Vec<i64> = vec![];
+                        for o in [prev, cur].into_iter().flatten() {
+                            for d in [-1i64, 0, 1] {
+                                locals.push(x + o as i64 + d);
+                            }
+                        }
+                        let base = x + cur.or(prev).unwrap_or(0) as i64;
+                        let mut s2 = -7200;
+                        while s2 <= 7200 {
+                            locals.push(base + s2);
+                            s2 += 1800;
+                        }
+                        locals.push(base + rng.range(-7200, 7200));
+                        locals.sort();
+                        locals.dedup();
+                        for c in locals {
+                            emit_find(&mut out, l, hash, path, &tz, &leaps, &offsets, c);
+                            nfind += 1;
+                            l.class("find_event_in_rule_governed_future");
+                        }
+                    }
+                    prev = cur;
+                }
             }
         }
         l.class_n("find_events", nfind);
